@@ -35,22 +35,22 @@ def gen(seed, tier):
     rng = random.Random(seed)
     world = progs.gen_world(rng, rich=rng.random() < 0.8, natives=True, max_depth=rng.choice((1, 2, 3)))
     world['prebind'] = []
-    keys = [(n, a) for n, a, rows in world['facts'] if a >= 1]
+    keys = [(n, a) for n, a, rows in world['facts']]
     # prefer predicates the rules actually call, so that the natives take part in the search
     import re
     text = ' '.join(world['rules'])
-    called = [(n, a) for n, a in keys if re.search(r'\b%s\(' % n, text)]
+    called = [(n, a) for n, a in keys if re.search(r'\b%s\(' % n, text) or (a == 0 and re.search(r'\b%s\b' % n, text))]
     world['native'] = [x for x in world['native'] if (x[0], x[1]) in called or rng.random() < 0.3]
     for (n, a) in called:
         if rng.random() < 0.5 and not any(x[0] == n and x[1] == a for x in world['native']):
-            world['native'].append([n, a, rng.choice(['inferred', 'explicit', 'variadic', 'decorated']), rng.random() < 0.5])
+            world['native'].append([n, a, rng.choice(['inferred', 'explicit', 'variadic', 'decorated', 'prebuilt', 'explicit-varargs']), rng.random() < 0.5])
     if not world['native']:
         n, a = rng.choice(called or keys)
-        world['native'] = [[n, a, rng.choice(['inferred', 'explicit', 'variadic', 'decorated']), rng.random() < 0.5]]
+        world['native'] = [[n, a, rng.choice(['inferred', 'explicit', 'variadic', 'decorated', 'prebuilt', 'explicit-varargs']), rng.random() < 0.5]]
     if world.get('has_n'):
         # the native-only predicate of C03 gets a compiled twin here
         world['facts'] = world['facts'] + [['n', 1, [[['a', 'a']], [['a', 'c']], [['f', 'f', [['v', 0]]]]]]]
-        world['native'] = world['native'] + [['n', 1, rng.choice(['inferred', 'explicit', 'variadic', 'decorated']), rng.random() < 0.5]]
+        world['native'] = world['native'] + [['n', 1, rng.choice(['inferred', 'explicit', 'variadic', 'decorated', 'prebuilt', 'explicit-varargs']), rng.random() < 0.5]]
         world['has_n'] = False
     if rng.random() < 0.5:
         # natives "next to dynamic facts": make sure some native predicate also has dynamic facts
